@@ -178,6 +178,22 @@ func checkC19(c *Ctx, p *Prog, r *Result) {
 		}
 	}
 
+	// ---- the sqlite store serialises its sessions ----
+	r.rule("C19.sqlite-single-connection", "sqlite.Open hands out a store whose connection pool is limited to one connection (SetMaxOpenConns(1) on every path to a successful return): its connection string replaces the driver's busy timeout, so with several pooled connections concurrent sessions fail with 'database is locked' instead of obtaining the outcome they would obtain alone")
+	if open := p.ByName["fdo/sqlite.Open"]; open == nil || len(open.Blocks) == 0 {
+		r.note("fdo/sqlite.Open has no body in this build configuration (tinygo): rule not applicable here")
+	} else {
+		r.floor("C19.sqlite-single-connection", 1)
+		f := NewFlow(p, &RuleSet{Atoms: []AtomDef{{Name: "single-conn", Doc: "SetMaxOpenConns(1) was called", Exec: func(m *Matcher, call ssa.CallInstruction) bool {
+			if m.P.calleeOf(call.Common()).Name != "database/sql.DB.SetMaxOpenConns" {
+				return false
+			}
+			a := allArgs(call)
+			return len(a) == 2 && isConstInt(a[1], 1)
+		}}}}, []*ssa.Function{open}, func(g *ssa.Function) bool { return g != open })
+		r.requireAtReturns(f, "C19.sqlite-single-connection", open, 1, []Atom{"single-conn"})
+	}
+
 	// ---- guarded-by (E4) ----
 	guards := []guardedField{
 		{"fdo/serviceinfo.bufPipe.buf", "fdo/serviceinfo.bufPipe.Mutex"},
